@@ -68,6 +68,11 @@ def o141(ctx):
             ctx.finding(q, ev.node, "the map itself must be transformed", ev.node, m)
         out = ev.kwargs.get("output")
         ctx.count(1)
+        # the buffer the result is written into is not the array that is being read: for spline orders 0 and 1 the library reads the input while it
+        # fills the output (no prefiltered copy), so an output that aliases the input is read half overwritten
+        if out is not None and inp is not None and (out is inp or (not isinstance(out, Ref) and not is_pyconst(out) and to_term(out) == to_term(inp))):
+            ctx.finding(q, ev.node, "affine_transform writes its result into the array it reads (output= is the input map itself or an alias of it): with spline order 0 or 1 "
+                        "the input is read while it is being overwritten and the rotated map is wrong", ev.node, m)
         via_buffer = out is not None and to_term(out) == to_term(r.ret)
         res_ = ev.extra.get("ret")
         via_result = res_ is not None and to_term(res_) == to_term(r.ret) and (out is None or isinstance(out, Ref) or is_pyconst(out))
